@@ -168,7 +168,7 @@ def noPanicPred : RMPred where
   throw := fun e rc out s => by simp
   outOfFuel := fun rc out s => by simp
   write := write_noPanic
-  mapErr := mapErr_noPanic
+  mapErr := fun x f _ hx => mapErr_noPanic x f hx
   captured := captured_noPanic
   cleanup := cleanup_noPanic
   navigate := fun root segs blocks rc out s => navigate_never_panics root segs blocks rc out s
